@@ -97,7 +97,7 @@ static int want(const shard_t *sh, const char *name) {
   const char *fl = opt_val(sh, "funs"); char pat[96];
   if (!fl) return 1;
   snprintf(pat, sizeof pat, ":%s:", name);
-  { char all[300]; snprintf(all, sizeof all, ":%s:", fl); return strstr(all, pat) != NULL; }
+  { char all[4096]; snprintf(all, sizeof all, ":%s:", fl); return strstr(all, pat) != NULL; }
 }
 
 void drv_alias(int tier, unsigned long seed, const char *extra) {
